@@ -384,12 +384,15 @@ def _reference_loop(env, wd, opt, lr, sched, freq, n_steps, start_step, warm):
 # --------------------------------------------------------------------------
 
 
-def train_case(train, opt, lr, steps, sched=None, freq=1, val=(), start=0, hidden=2, n=2, pyweights=False, warm=0):
+def train_case(train, opt, lr, steps, sched=None, freq=1, val=(), start=0, hidden=2, n=2, pyweights=False, warm=0,
+               prior_lr=None):
     """warm=k: both runs start from an arbitrary symbolic optimizer state 'after k steps' (step counter k)"""
     start = warm or start
     name = "%s/%s/%s_lr%g/%s%s/steps%d%s%s/h%d%s" % (
         "induct" if warm else "train", "+".join(train), opt, lr, sched or "nosched", "_f%d" % freq if sched else "", steps,
         "/val=" + "+".join(val) if val else "", "/start%d" % start if start else "", hidden, "/pyweights" if pyweights else "")
+    if prior_lr is not None:
+        name += "/after_other_training_lr%g" % prior_lr
     opt_cls, opt_args = OPTS[opt]
     sched_cls, sched_args = SCHEDS[sched]
 
@@ -404,8 +407,15 @@ def train_case(train, opt, lr, steps, sched=None, freq=1, val=(), start=0, hidde
         walk_ok = sorted(want) == sorted(id(t) for _, t, _ in learnA)
         _record_calls(A)
         init = _snap(env, learnA)
-        setting = OptimizerSetting(opt_cls, lr, optimizer_args=dict(opt_args), scheduler_class=sched_cls,
-                                   scheduler_args=dict(sched_args), scheduler_frequency=freq)
+        if prior_lr is not None:
+            # history: another training was configured earlier in this process, with DEFAULT optimizer_args and
+            # another learning rate; the training under test also relies on the default optimizer_args
+            assert not opt_args and sched_cls is None
+            Solver(A.train, A.val, optimizer_setting=OptimizerSetting(opt_cls, prior_lr)).configure_optimizers()
+            setting = OptimizerSetting(opt_cls, lr)
+        else:
+            setting = OptimizerSetting(opt_cls, lr, optimizer_args=dict(opt_args), scheduler_class=sched_cls,
+                                       scheduler_args=dict(sched_args), scheduler_frequency=freq)
         solver = Solver(A.train, A.val, optimizer_setting=setting)
         statesA, ostatesA, marks, val_pairs, lrsA = [], [], [0], [], []
 
@@ -545,6 +555,7 @@ def cases(tier):
     cs.append(train_case(("pinn", "mean"), "adam", 0.5, 1, hidden=1))
     cs.append(train_case(("pinn", "mean"), "sgd", 0.5, 2, sched="steplr", hidden=1))
     cs.append(train_case(("pinn", "mean"), "sgd_m", 0.5, 1, hidden=1, warm=3))
+    cs.append(train_case(("pinn", "mean"), "sgd", 0.125, 1, hidden=1, prior_lr=0.5))
     if th:
         P3 = ("pinn", "mean", "adaptive")
         # 3 conditions incl. adaptive weights, 3 steps, SGD variants
